@@ -21,6 +21,7 @@ from ..util import pmap
 
 RTOL = 1e-9
 ATOL = 1e-9
+SCALE_TOL = 1e-11
 
 # method -> (minimum points per axis, fixed dimension or None, general counterpart or None)
 METHODS = collections.OrderedDict([
@@ -199,7 +200,15 @@ def run_tlc(ctx, cfg, timeout=2400):
 
 
 def close(obs, want, scale=0.0):
+    """comparison of two observed numbers that depend on a table of magnitude `scale`"""
     return abs(obs - want) <= ATOL + RTOL * max(abs(want), scale)
+
+
+def close_exact(obs, want, scale):
+    """comparison with the spec's exact rational: 1e-9 absolute + 1e-9 relative, plus round-off of the operands
+    (1e-11 of the largest table entry: the 64-term sums of 3D-lagrange3 on cubic tables of magnitude 5e5 that cancel to
+    O(1) were observed at 2e-13 of that magnitude)"""
+    return abs(obs - want) <= ATOL + RTOL * abs(want) + SCALE_TOL * scale
 
 
 # ---- implementation side ------------------------------------------------------------------------------------------
@@ -315,7 +324,7 @@ def check_group(item):
             mv[j] = r[1]
             if repro or allnode:
                 cnt['compared'] += 1
-                if not close(r[1], want):
+                if not close_exact(r[1], want, scale):
                     r2 = call_single(make_interp(m, s0, table, ex), x)
                     fails[j].append((m, 'InterpND.interpolate', {'sequence': r, 'fresh_object': r2},
                                      'table value at a node' if allnode else
@@ -348,7 +357,7 @@ def check_group(item):
                 vvals[m][j] = v
                 if repro or allnode:
                     cnt['compared'] += 1
-                    if not close(v, want):
+                    if not close_exact(v, want, scale):
                         fails[j].append((m, 'InterpND.interpolate(vectorised)', ('v', v),
                                          'table value at a node' if allnode else
                                          ('polynomial of the reproduced class' if inb else 'extrapolated polynomial')))
@@ -380,7 +389,7 @@ def check_group(item):
                                      'extrapolate=True)'))
                 else:
                     cnt['compared'] += 1
-                    if not close(r[1], want):
+                    if not close_exact(r[1], want, scale):
                         fails[j].append((m, 'MetaModelStructuredComp', r, 'table value at a node' if allnode else
                                          'polynomial of the reproduced class'))
     # fixed-dimension variants (single-point and vectorised path) agree with the general method on every table,
@@ -452,6 +461,11 @@ def replay(ctx):
     with open(ctx.replay) as f:
         rec = json.load(f)
     s, o = rec['scenario'], rec['expected']
+    # the laws are re-checked by TLC on a small bound; the stored expectation must equal the Fraction reference
+    cfg = write_cfg(ctx, 'InterpReplay.cfg', dims=[1], npoly=1, all1d=False, nrep=2, nrep3=1, full2d=False,
+                    interior=False, exset=[True, False])
+    run_tlc(ctx, cfg, timeout=600)
+    crosscheck({'s': s, 'o': o})
     item = build_items([(s, [{'s': s, 'o': o}])], ctx, 1)[0]
     cnt, fails = check_group(item)
     ctx.impl = 1
@@ -534,5 +548,5 @@ def run(ctx):
         'grids with fewer points than a method needs are skipped for that method after checking that the general '
         'method rejects them itself (counted in coverage.counters)',
         'the out-of-bounds error is OutOfBoundsError for InterpND.interpolate and AnalysisError for MetaModelStructuredComp',
-        'float comparison: |obs - exact| <= 1e-9 + 1e-9*|exact|',
+        'float comparison: |obs - exact| <= 1e-9 + 1e-9*|exact| + 1e-11*max|table| (round-off of the operands)',
     ]
